@@ -54,6 +54,42 @@ func c14cli(c *Ctx, items []corpus.Item, tmp string) {
 		}
 		samples = append(samples, muts[rng.IntN(len(muts))])
 	}
+	// YAML-specific inputs for the CLI (it reads YAML as well as JSON)
+	yamls := map[string]string{
+		"anchors-aliases": "$schema: \"https://gobl.org/draft-0/bill/invoice\"\nsupplier: &s\n  name: A\n  tax_id: {country: ES, code: B98602642}\ncustomer: *s\nlines:\n  - &l {quantity: \"1\", item: {name: x, price: \"10.00\"}}\n  - *l\n",
+		"merge-keys":      "base: &b {name: A}\n$schema: \"https://gobl.org/draft-0/org/party\"\n<<: *b\n",
+		"alias-bomb":      "a: &a [x,x,x,x,x,x,x,x]\nb: &b [*a,*a,*a,*a,*a,*a,*a,*a]\nc: &c [*b,*b,*b,*b,*b,*b,*b,*b]\nd: &d [*c,*c,*c,*c,*c,*c,*c,*c]\ne: &e [*d,*d,*d,*d,*d,*d,*d,*d]\n$schema: \"https://gobl.org/draft-0/org/party\"\nname: *e\n",
+		"tabs":            "$schema:\t\"https://gobl.org/draft-0/org/party\"\nname:\tX\n",
+		"non-string-keys": "$schema: \"https://gobl.org/draft-0/org/party\"\n1: a\ntrue: b\n[1,2]: c\nname: X\n",
+		"self-reference":  "&a [*a]\n",
+		"multi-doc":       "$schema: \"https://gobl.org/draft-0/org/party\"\nname: X\n---\nname: Y\n",
+		"binary-tag":      "$schema: \"https://gobl.org/draft-0/org/party\"\nname: !!binary aGVsbG8=\n",
+		"float-specials":  "$schema: \"https://gobl.org/draft-0/bill/invoice\"\nlines:\n  - quantity: .inf\n    item: {name: x, price: .nan}\n",
+		"empty-yaml":      "# nothing\n",
+		"unterminated":    "$schema: \"https://gobl.org/draft-0/org/party\nname: [a, b\n",
+	}
+	for name, y := range yamls {
+		for _, cmdName := range []string{"build", "validate"} {
+			file := filepath.Join(tmp, "y-"+name+".yaml")
+			_ = os.WriteFile(file, []byte(y), 0o644)
+			cmd := exec.Command(gbin, cmdName, file)
+			var so, se bytes.Buffer
+			cmd.Stdout, cmd.Stderr = &so, &se
+			err := runWithTimeout(cmd, 60*time.Second)
+			c.R.Count("cli:yaml", 1)
+			out := se.String() + so.String()
+			wit := map[string]any{"command": cmdName, "yaml": y}
+			if err != nil {
+				switch {
+				case strings.Contains(out, "panic:") || strings.Contains(out, "fatal error:") || strings.Contains(out, "goroutine "):
+					c.R.Fail("panic:"+panicSite(out), fmt.Sprintf("`gobl %s` crashed on YAML input %s: %s", cmdName, name, trunc(out)), wit)
+				case err.Error() == "timeout":
+					c.R.Fail("hang:cli:yaml:"+name, "gobl "+cmdName+" did not finish within 60 s on YAML input "+name, wit)
+				}
+			}
+			os.Remove(file)
+		}
+	}
 	cmds := [][]string{{"build"}, {"validate"}, {"correct", "--credit"}, {"replicate"}, {"sign"}, {"verify"}}
 	c.Parallel(len(samples), func(i int) {
 		s := samples[i]
